@@ -86,33 +86,53 @@ class _Timeout(BaseException):
 
 
 def _on_vtalrm(signum, frame):  # noqa: ARG001
+    """Raise _Timeout in the interrupted code; `where` is the outermost frame inside a docstring parser module
+    (stable for bucketing: the parser entry point that did not return)."""
     from vp.common.bootstrap import SRC
 
-    root = str(SRC)
+    root = os.path.join(str(SRC), "_griffe", "docstrings") + os.sep
     where = "?"
     f = frame
     while f is not None:
         fn = f.f_code.co_filename
-        if fn.startswith(root):
-            where = f"{os.path.relpath(fn, root)}:{f.f_code.co_name}"
-            break
+        if fn.startswith(root) and not fn.endswith("parsers.py"):
+            where = f"_griffe/docstrings/{os.path.basename(fn)}:{f.f_code.co_name}"
         f = f.f_back
-    raise _Timeout(where)
+    if _armed[0]:
+        raise _Timeout(where)
 
 
 _handler_installed = False
+_armed = [False]
+
+
+def _limit_memory(gib: float = 6.0) -> None:
+    """Safety net for the worker / alone processes: a non-terminating parse that also allocates must not eat the machine."""
+    try:
+        import resource
+
+        soft, hard = resource.getrlimit(resource.RLIMIT_AS)
+        want = int(gib * 2**30)
+        if hard != resource.RLIM_INFINITY:
+            want = min(want, hard)
+        resource.setrlimit(resource.RLIMIT_AS, (want, hard))
+    except Exception:  # noqa: BLE001, S110
+        pass
 
 
 def _guarded(fn, seconds: float):
-    """Run fn() under a CPU-time guard. Raises _Timeout when the guard fires."""
+    """Run fn() under a CPU-time guard. Raises _Timeout when the guard fires. The timer re-fires every 50 ms until it is
+    disarmed, so a _Timeout that gets swallowed somewhere (finaliser, broad handler) cannot leave the parse unguarded."""
     global _handler_installed
     if not _handler_installed:
         signal.signal(signal.SIGVTALRM, _on_vtalrm)
         _handler_installed = True
-    signal.setitimer(signal.ITIMER_VIRTUAL, seconds)
+    _armed[0] = True
+    signal.setitimer(signal.ITIMER_VIRTUAL, seconds, 0.05)
     try:
         return fn()
     finally:
+        _armed[0] = False
         signal.setitimer(signal.ITIMER_VIRTUAL, 0)
 
 
@@ -149,6 +169,7 @@ def _alone(case1: dict, seconds: float) -> str:
 
 
 def _alone_main(path: str) -> int:
+    _limit_memory()
     doc = json.loads(open(path).read())
     case = doc["case"]
     (style, opts), = G.combos_for(case)
@@ -437,6 +458,8 @@ def _describe(ctx):
 
 
 def run_shard(ctx) -> None:
+    if ctx.nshards > 1:
+        _limit_memory()
     strat, salt = strategy(ctx)
     n = ctx.scale(6000, 100000)
     fuzz_here = (not ctx.quick) and ctx.shard == 0
